@@ -18,7 +18,7 @@ Definition res_eqb (a b : res unit) : bool :=
   end.
 
 Definition keys_match (s : st) : bool :=
-  match share s with None => true | Some _ => optN_eqb (keys s) (share s) end.
+  let c := st_c s in if share_some c then keys_some c && Session.keys_match c else true.
 
 (* states after each operation *)
 Fixpoint trace (w : world) (s : st) (ops : list op) : list st :=
@@ -53,6 +53,6 @@ Definition check (c : case) : bool :=
       let tr := trace w (init w) ops in
       all2 res_eqb outs (run w (init w) ops) &&
       all2 (fun o s => opt_agrees Bool.eqb o (keys_match s)) keysok tr &&
-      all2 (fun o s => opt_agrees N.eqb o (hs_sess s)) sess tr &&
-      oview_eqb wire (Session.wire (final w (init w) ops))
+      all2 (fun o s => opt_agrees N.eqb o (hs_sess (st_d s))) sess tr &&
+      oview_eqb wire (Session.wire (st_d (final w (init w) ops)))
   end.
